@@ -3,8 +3,8 @@ package wm
 import (
 	"fmt"
 	"go/token"
-	"strings"
 	"go/types"
+	"strings"
 
 	"golang.org/x/tools/go/ssa"
 )
@@ -65,6 +65,7 @@ func c19All(c *Check, P string) {
 		c19Transparent(c, P, e.name, m)
 		c19ContextRestored(c, P, e.name, m)
 		c19MessageUntouched(c, P, e.name, m)
+		MiddlewareStatePerCall(c, P+".O1", e.name, m)
 		switch e.name {
 		case "Timeout":
 			c19Timeout(c, P, m)
@@ -816,6 +817,15 @@ func c19Delay(c *Check, P string, m *MW) {
 // c19ContextRestored: O3.
 func c19ContextRestored(c *Check, P, name string, m *MW) {
 	I := m.Inner
+	// whatever the middleware does with contexts it does to the consumed message: the messages the handler produced keep
+	// the context the handler (and the router) gave them
+	for _, f := range WithAnon(I) {
+		for _, s := range CallsTo(f, nSetContext) {
+			if !m.IsMsg(Receiver(s)) {
+				c.Report(false, P+".O3", "PRODUCED-MESSAGES-KEEP-THEIR-CONTEXT", f, s.Pos(), name+": SetContext on another message", "the middleware sets a context on the consumed message only — not on the messages the handler returned (they would carry the middleware's context, cancelled by the time they are published)")
+			}
+		}
+	}
 	var body []ssa.CallInstruction
 	for _, s := range CallsTo(I, nSetContext) {
 		if m.IsMsg(Receiver(s)) {
